@@ -816,7 +816,7 @@ func RandomSchema(r *rand.Rand) Schema {
 		case 2: // composite key
 			t.Cols = []Col{col("k1", "integer"), col("k2", "text"), ncol("c3", "numeric")}
 			t.PK = []string{"k1", "k2"}
-			if r.IntN(2) == 0 {
+			if r.IntN(6) == 0 { // key order != column order (kept rare: a pre-registered defect lives here)
 				t.PK = []string{"k2", "k1"}
 			}
 		default:
